@@ -416,8 +416,11 @@ Proof.
                  match kv_get (kv_set m k slot') k2 with Some (k1, i) => frag_at q (Some k1) kp' hp' i | None => None end = Some e).
       { intros kp' hp' He'. destruct (bytes_eqb k k2) eqn:Ek.
         - apply bytes_eqb_eq in Ek. subst k2.
-          unfold entry_or_none in EO. destruct (kv_get items k) as [[k1 i]|] eqn:G; [|discriminate].
-          injection EO as <- <-. rewrite (kv_get_set_same _ _ _ _ _ G).
+          destruct (kv_get items k) as [[k1 i]|] eqn:G; [|discriminate].
+          assert (Hi : i <> INone).
+          { intro; subst i. destruct q as [|[k2|n] q]; simpl in He'; discriminate. }
+          rewrite (entry_or_none_same _ _ _ _ G Hi) in EO. injection EO as <- <-.
+          rewrite (kv_get_set_same _ _ _ _ _ G).
           apply (IH _ _ E q (Some k1) kp' hp' e He').
           destruct (is_head e); unfold not_below, off_keys, is_prefix in *; simpl in Hu;
             rewrite bytes_eqb_refl in Hu; exact Hu.
